@@ -3,11 +3,12 @@ pub mod c01;
 pub mod c02;
 pub mod c03;
 pub mod c04;
+pub mod c05;
 pub mod c13;
 pub mod common;
 
 use crate::runner::CheckDef;
 
 pub fn all() -> Vec<CheckDef> {
-    vec![c01::def(), c02::def(), c03::def(), c04::def(), c13::def()]
+    vec![c01::def(), c02::def(), c03::def(), c04::def(), c05::def(), c13::def()]
 }
